@@ -202,7 +202,7 @@ func c27Grammar(thorough bool) []c27Expr {
 		}
 	}
 	// depth 2: vector <op> vector
-	binPool := []c27Expr{pool[0], pool[1], pool[2], pool[3], pool[4], pool[6], pool[9], pool[10], pool[13], pool[17]}
+	binPool := []c27Expr{pool[0], pool[1], pool[2], pool[3], pool[6], pool[9], pool[13], pool[17]}
 	if !thorough {
 		binPool = []c27Expr{pool[0], pool[1], pool[3], pool[6], pool[9], pool[13]}
 	}
@@ -215,7 +215,7 @@ func c27Grammar(thorough bool) []c27Expr {
 		}
 	}
 	// depth 2: range functions over subqueries
-	sqFns := []int{0, 9, 7, 10, 11, 14, 6, 8} // rate max sum count last deriv changes avg
+	sqFns := []int{0, 9, 7, 10, 11, 14} // rate max sum count last deriv
 	type rs struct{ r, s int64 }
 	sqRS := []rs{{2000, 500}, {3000, 1000}, {2500, 1001}, {3000, 0}}
 	sqMods := []c27Mod{{0, -1}, {1000, -1}, {0, 3000}}
@@ -546,7 +546,14 @@ func c27CheckRange(r *vx.Run, eng pr_Eng, stor storage.Queryable, cfg, ds int, e
 		}
 		slice := c27AtStep(rr, t)
 		if d, msg := c27CompareStep(slice, ir, t); d != "" {
-			r.Violation("range-vs-instant-"+d+"/"+e.kind, fmt.Sprintf("config %s dataset %d: %s over [%d,%d] step %d, at step time %d: %s", c27Configs[cfg].Name, ds, q, g.Start, g.End, g.Step, t, msg), rp)
+			sig := "range-vs-instant-" + d + "/" + e.kind
+			if c27Configs[cfg].DelayedName && c27NamedAndUnnamedTwin(eng, stor, q, g, inst) {
+				// known defect (delayed name removal): rangeEval keys its output series by the label
+				// hash alone, so a sample whose name is still to be dropped is merged into the
+				// series of an equally-labelled sample that keeps its name.
+				sig = "delayedname-range-query-merges-named-and-name-dropped-series"
+			}
+			r.Violation(sig, fmt.Sprintf("config %s dataset %d: %s over [%d,%d] step %d, at step time %d: %s", c27Configs[cfg].Name, ds, q, g.Start, g.End, g.Step, t, msg), rp)
 		}
 		steps++
 		if len(ir.Series) > 0 {
@@ -571,6 +578,33 @@ func c27CheckRange(r *vx.Run, eng pr_Eng, stor storage.Queryable, cfg, ds int, e
 		}
 	}
 	return steps, nonEmpty
+}
+
+// c27NamedAndUnnamedTwin reports whether, over the steps of the grid, the instant results contain a
+// label set with a metric name and also the same label set without it (the precondition of the
+// known delayed-name-removal defect).
+func c27NamedAndUnnamedTwin(eng pr_Eng, stor storage.Queryable, q string, g c27Grid, inst map[int64]c27Res) bool {
+	keys := map[string]bool{}
+	for t := g.Start; t <= g.End; t += g.Step {
+		ir, ok := inst[t]
+		if !ok {
+			ir = c27Instant(eng, stor, q, t)
+			inst[t] = ir
+		}
+		for k := range ir.Series {
+			keys[k] = true
+		}
+	}
+	for k := range keys {
+		if strings.HasPrefix(k, `{__name__="`) {
+			i := strings.Index(k[len(`{__name__="`):], `"`)
+			rest := strings.TrimPrefix(k[len(`{__name__="`)+i+1:], ", ")
+			if keys["{"+rest] {
+				return true
+			}
+		}
+	}
+	return false
 }
 
 // c27CheckOffset: instant(Q with extra offset d, t) == instant(Q, t-d), timestamps shifted.
@@ -685,7 +719,7 @@ func TestVerifC27(t *testing.T) {
 	seen := map[c27Grid]bool{}
 	for _, st := range vx.Pick(r, []int64{0, 1000}, []int64{0, 500, 1000}) {
 		for _, span := range vx.Pick(r, []int64{2000, 4500}, []int64{0, 2000, 4000, 5500}) {
-			for _, step := range vx.Pick(r, []int64{250, 500, 1000, 1001, 3000}, []int64{250, 500, 1000, 1001, 1500, 3000}) {
+			for _, step := range vx.Pick(r, []int64{250, 500, 1000, 1001, 3000}, []int64{250, 500, 1000, 1001, 3000}) {
 				g := c27Grid{st, st + span, step}
 				if span == 0 {
 					g.Step = 1000
